@@ -197,3 +197,27 @@ func VerifC04SessionCount(l *Listener) int {
 	l.s.lock.RUnlock()
 	return n
 }
+
+// VerifC04Frags is len(s.frags) of the Session of the device (-1 when unknown).
+func VerifC04Frags(l *Listener, id device.ID) int {
+	l.s.lock.RLock()
+	s := l.s.sessions[id.Hash()]
+	l.s.lock.RUnlock()
+	if s == nil {
+		return -1
+	}
+	return len(s.frags)
+}
+
+// VerifC04ReceiveFrags is receive() for the Session of the device, then len(s.frags) of that
+// Session (also when the Packet made the Server forget it).
+func VerifC04ReceiveFrags(l *Listener, id device.ID, n *com.Packet) (int, error) {
+	l.s.lock.RLock()
+	s := l.s.sessions[id.Hash()]
+	l.s.lock.RUnlock()
+	if s == nil {
+		return -1, nil
+	}
+	err := receive(s, l, n)
+	return len(s.frags), err
+}
